@@ -143,8 +143,11 @@ impl<M: MovingAverageConstructor> IndicatorInstance for RelativeStrengthIndexIns
 
 		let change = src - replace(&mut self.previous_input, src);
 
-		let pos: ValueType = self.posma.next(&change.max(0.));
-		let neg: ValueType = self.negma.next(&change.min(0.)) * -1.;
+		// Both averages are taken over non-negative values, but rounding residues of a moving average
+		// (or an overshooting kind of it) may leave them slightly negative; then `pos + neg` can
+		// cancel out to zero or the value can leave the range [0.0; 1.0]
+		let pos: ValueType = self.posma.next(&change.max(0.)).max(0.);
+		let neg: ValueType = (self.negma.next(&change.min(0.)) * -1.).max(0.);
 
 		let value = if pos != 0. || neg != 0. {
 			debug_assert!(pos + neg != 0.);
